@@ -290,10 +290,16 @@ fn build_wal_base(rng: &mut Rng) -> Result<Base, String> {
         let other_fs = SimFs::from_image(&dbutil::root_image());
         let mut other = Session::new(other_fs.clone(), cfg);
         other.open()?;
+        // (the forged record carries a sequence number above everything this log holds: recovery
+        // skips records whose numbers it has already replayed)
+        for i in 0..900u32 {
+            other.put(format!("filler{i:04}").as_bytes(), b"x")?;
+        }
+        other.reopen(Config { reuse: false, ..cfg })?;
         other.put(&forged_key, b"FORGED-value-never-written-here!")?;
         other.close();
         let other_image = other_fs.image();
-        let embedded: Vec<u8> = other_image.files.iter().find(|(p, b)| classify(p) == PathClass::Wal && !b.is_empty()).map(|(_, b)| b.to_vec()).unwrap_or_default();
+        let embedded: Vec<u8> = other_image.files.iter().filter(|(p, b)| classify(p) == PathClass::Wal && !b.is_empty()).max_by_key(|(p, _)| crate::simfs::file_number(p).unwrap_or(0)).map(|(_, b)| b.to_vec()).unwrap_or_default();
         if embedded.len() == 64 {
             let mut value = vec![b'p'; 20];
             value.extend_from_slice(&embedded);
